@@ -6,19 +6,24 @@ LEVEL = "proof"
 MANIFEST = dict(
     level="proof",
     text=("Lean 4 theorems over the executable allocator model of iwfsmfile.c: the invariant `index = maximal zero runs of the bitmap` "
-          "(plus cache validity and reserved header/bitmap blocks) holds initially and is preserved by allocate / release, hence adjacent free "
-          "regions are always merged and the index is determined by the bitmap; the byte-wise bitmap loader yields exactly the maximal zero runs. "
-          "The model is tied to the code by a differential run of the real IWFS_FSM "
-          "(histories with sync / close / reopen / clear, trim on and off, releases at every alignment against 64-bit words) against the compiled "
-          "Lean model; an independent oracle compares index, bitmap runs, the complement of the live regions and the file size after close"),
+          "(plus cache validity, reserved header/bitmap blocks, geometry) holds after open and is preserved by every call - allocate with all flags "
+          "incl. bitmap growth/relocation, release, reallocate, sync, close+reopen with/without trim, clear - hence over every history; adjacent free "
+          "regions are always merged, the index is a function of the bitmap, reopen without trim gives the same index, freeing everything leaves "
+          "exactly the gaps around header and bitmap; the word-wise bit scans (incl. iwbits_find_first_sbit64 / iwbits_reverse_64) equal the naive "
+          "scans for all offsets and word contents; the byte-wise loader equals the bit-wise one. The model is tied to the code by a differential run "
+          "of the real IWFS_FSM (histories with sync / close / reopen / clear, trim on and off, releases at every alignment against 64-bit words, "
+          "unit cases for scans and loader) against the compiled Lean model; an independent oracle compares index, bitmap runs, the complement of "
+          "the live regions and the file size after close"),
     note=("trusted: Lean kernel, translator, harness/generator, gcc+ASan/UBSan; modelled not verified: the C control flow of the functions named; "
-          "the word-wise scans and iwbits leaves are tied by differential tests against the compiled definitions and a naive oracle, their equality with the naive scans is not yet a theorem; "
-          "page size 4096; little-endian branch of the scans"),
+          "non-strict mode: theorems assume releases name allocated ranges (open finding FSM6 of C10); file size after close and persistence of the "
+          "statistics are tied and checked by the oracle, not theorems; page size 4096; little-endian branch of the scans; "
+          "tree modelled = /repo + fix commits 92a58a8 c298771 178a684 2507f48 9fd915e dd41311 (+474d361 of exf12)"),
     technique="Lean 4 proof over executable model + differential correspondence (C harness vs compiled Lean driver) + bitmap/index/live-set oracle")
 MODULE = "IwModel.Props.C11"
 THEOREMS = ["IwModel.C11." + n for n in (
     "inv_open", "inv_step", "inv_reachable", "index_eq_runs", "coalesced", "index_determined_by_bitmap",
-    "reopen_same", "load_exact", "free_all")]
+    "reopen_same", "load_exact", "free_all", "bitscan_next_spec", "bitscan_prev_spec", "ffs_spec", "rev64_spec",
+    "load_spec", "load_spec_runs")]
 
 # F1 witness (DESIGN.md section 7, probe p2): eight 4-block regions, free 1,3,5, consume the free tail exactly,
 # free 0,4,6, then ask for 8 and 16 blocks
@@ -82,7 +87,7 @@ def run(ctx):
     h = F.build(ctx)
     drv = C.drv_path() if drv_ok else None
     F.explore(ctx, h, drv, corpus(), "corpus", "c11c")
-    n = 120 if ctx.tier == "quick" else 1200
+    n = 400 if ctx.tier == "quick" else 4000
     F.explore(ctx, h, drv, cases_main(C.Rng(ctx.seed, "c11/main"), n, ctx.tier), "main", "c11")
     if ctx.tier == "thorough":
         F.explore(ctx, h, drv, cases_wordalign_all(C.Rng(ctx.seed, "c11/wa")), "wordalign", "c11w")
